@@ -560,6 +560,9 @@ func newJoin(c Cfg, w *vrt.World) *explore.Instance {
 	inst.Observe = func(w *vrt.World) string {
 		return fmt.Sprintf("sizes=%v segs=%v", m.sizes, m.segs)
 	}
+	inst.Project = func(w *vrt.World) string {
+		return fmt.Sprintf("written=%d accepted=%d next=%d segs=%v short=%v outstanding=%v inClosed=%v outClosed=%v", m.written, m.accepted, m.next, m.segs, m.prevShort, m.outstanding, m.inClosed, m.outClosed)
+	}
 	inst.Counters = func() map[string]int {
 		return map[string]int{"timeout_flushes": m.timeoutsFired, "short_slices": m.shortSlices, "slices": m.nslices, "ticks_while_retained": m.heldDuringTick}
 	}
